@@ -228,6 +228,29 @@ class Builder:
             self.out(target, [f"srv.write_us({self.draw(st.sampled_from(['1500', '1000.5']))})", f"{x} = srv.read_us()", f"mon.write({x})"])
         return "device_getter"
 
+    def s_nested_hoist(self, target):
+        """the same name is hoisted out of an inner if/else (one type) and an outer one (joined type)."""
+        x = self.name()
+        t_in, t_out = self.draw(st.sampled_from([("int", "float"), ("float", "int"), ("int", "int"), ("int", "str"), ("bool", "int")]))
+        if t_in != "str" and t_out == "str":
+            t_in = "str"
+        c1, c2 = self.name("c"), self.name("c")
+        self.out(target, [f"{c1} = {self.cond()}", f"{c2} = {self.cond()}", f"if {c1}:", f"    if {c2}:", f"        {x} = {self.val(t_in)}", "    else:", f"        {x} = {self.val(t_in)}",
+                          "else:", f"    {x} = {self.val(t_out)}", f"mon.write({x})"])
+        return "nested_hoist"
+
+    def s_same_local_two_helpers(self, target):
+        """two helpers first-assign a local of the same name inside if/else with different types."""
+        h1, h2, a = self.name("h"), self.name("h"), self.name("a")
+        t1, t2 = self.draw(st.sampled_from([("str", "float"), ("float", "str"), ("int", "float"), ("float", "int"), ("bool", "float")]))
+        r = self.draw(st.sampled_from(["r", "res", "tmp"]))
+        for h, t in ((h1, t1), (h2, t2)):
+            self.pre += [f"def {h}({a}):", f"    if {a} > 500:", f"        {r} = {self.val(t)}", "    else:", f"        {r} = {self.val(t)}", f"    return {r}"]
+        x, y = self.name(), self.name()
+        self.ana_reads += 2
+        self.out(target, [f"{x} = {h1}(analog_read(\"A0\"))", f"mon.write({x})", f"{y} = {h2}(analog_read(\"A0\"))", f"mon.write({y})"])
+        return "same_local_two_helpers"
+
     # ---- classes of open findings (off by default)
     def s_retype(self, target):
         x = self.name()
@@ -272,7 +295,7 @@ class Builder:
 
 
 SAFE = ["if_else_join", "ifexp_join", "float_first", "branch_hoist", "elif_hoist", "for_hoist", "while_hoist", "return_join", "annotated_param",
-        "list_join", "string_promotion", "tuple", "cross_pass", "mixed_arith", "device_getter"]
+        "list_join", "string_promotion", "tuple", "cross_pass", "mixed_arith", "device_getter", "nested_hoist", "same_local_two_helpers"]
 OPEN = ["retype", "multi_signature", "unannotated_param", "branch_in_loop", "float_minmaxabs", "main_loop_first_assign"]
 
 
@@ -307,8 +330,8 @@ def static_type_check(cpp, observed):
     for m in DECL.finditer(cpp):
         decls.setdefault(m.group(2), set()).add(m.group(1))
     for name, types in sorted(observed.items()):
-        if name not in decls or name.startswith("__"):
-            continue
+        if name not in decls or name.startswith("__") or len(decls[name]) > 1:
+            continue  # the same identifier declared with different types in different functions: judged by the differential only
         for t in types:
             if t not in HOLDS:
                 continue
